@@ -171,6 +171,7 @@ package pool
 //@   requires r != nil
 //@   ensures [copy] len(t) == len(r.msg.Token) && (len(t) > 0 ==> fresh(t)) && bytesEq(t, r.msg.Token)
 //@   ensures [nil-stays-nil] r.msg.Token == nil ==> t == nil
+//@   ensures [same-hash] len(r.msg.Token) <= 8 ==> tokenHashOf(t) == tokenHashOf(r.msg.Token)
 //
 //@ func (*Message) ETag() (v []byte, err error)
 //@   trusted
